@@ -63,6 +63,9 @@ class BuildError(Exception):
     pass
 
 
+CHUNK_TIMEOUT = 90          # seconds for one harness process to answer its chunk (normally a few seconds)
+
+
 def run_impl(lines, release=False, binary="impl_run", env=None, shards=JOBS):
     """Run request lines through the harness binary; returns one decoded JSON reply per line."""
     exe = os.path.join(os.path.dirname(build_harness(release)), binary)
@@ -76,7 +79,7 @@ def run_impl(lines, release=False, binary="impl_run", env=None, shards=JOBS):
     def one(chunk):
         try:
             r = subprocess.run([exe], input="\n".join(chunk) + "\n", capture_output=True, text=True, env=env or ENV,
-                               timeout=240)
+                               timeout=CHUNK_TIMEOUT)
         except subprocess.TimeoutExpired as e:
             # a line of this chunk does not come back: the replies received so far tell which one
             got = e.stdout or b""
@@ -92,7 +95,7 @@ def run_impl(lines, release=False, binary="impl_run", env=None, shards=JOBS):
             stuck = len(res)
             if stuck >= len(chunk):
                 return res[:len(chunk)]
-            res.append({"timeout": 240, "line": chunk[stuck][:200]})
+            res.append({"timeout": CHUNK_TIMEOUT, "line": chunk[stuck][:200]})
             rest = chunk[stuck + 1:]
             return res + (one(rest) if rest else [])
         out = r.stdout.split("\n")           # not splitlines(): replies may contain U+0085, U+2028 ... inside strings
